@@ -14,6 +14,7 @@ pub mod c08;
 pub mod c09;
 pub mod c10;
 pub mod hash_props;
+pub mod c13;
 pub mod c14;
 pub mod c15;
 pub mod c16;
@@ -26,7 +27,7 @@ pub mod slice_oracles;
 pub mod standalone;
 pub mod stream_props;
 
-pub const ALL: &[&str] = &["C01", "C02", "C03", "C04", "C05", "C06", "C07", "C08", "C09", "C10", "C11", "C12", "C14", "C15", "C16", "C17", "C18", "C19"];
+pub const ALL: &[&str] = &["C01", "C02", "C03", "C04", "C05", "C06", "C07", "C08", "C09", "C10", "C11", "C12", "C13", "C14", "C15", "C16", "C17", "C18", "C19"];
 
 pub fn build(prop: &str, tier: Tier) -> Option<CheckDef> {
     match prop {
@@ -42,6 +43,7 @@ pub fn build(prop: &str, tier: Tier) -> Option<CheckDef> {
         "C10" => Some(c10::build(tier)),
         "C11" => Some(hash_props::build_c11(tier)),
         "C12" => Some(hash_props::build_c12(tier)),
+        "C13" => Some(c13::build(tier)),
         "C14" => Some(c14::build(tier)),
         "C15" => Some(c15::build(tier)),
         "C16" => Some(c16::build(tier)),
